@@ -203,22 +203,34 @@ theorem stacked_eq_flatMap (db : Db F) (chain : List Atom) (key : Option Bytes) 
     stackedElems db chain key = pathElems db chain key :=
   Filter.stacked_eq_flatMap db chain key
 
-/-- The world the code computes (`modelWorld`) and the path semantics (`specWorld`) agree on every
-    symbol: same values, same set elements; and the same sub-query rows for symbols with a plain
-    cursor. -/
-theorem world_refines_spec (db : Db F) (c : Ctx) (n : String) :
-    (modelWorld db).elems c n = (specWorld db).elems c n ∧
-    (modelWorld db).val c n = (specWorld db).val c n ∧
-    (namePlain db.defs c.1 n = true → liveRows (modelWorld db) c n = liveRows (specWorld db) c n) :=
-  world_elems_eq db c n
+/-- **Dotted names mean what their path means**: when the resolution of a name is regular
+    (`regularParts`: no link is composed onto a composite set symbol that carries a non-iterable tail —
+    always the case for names of up to three segments, `regular_le3`), the symbol `GetSymbol` builds
+    denotes exactly the chain of links the specification reads off the name. -/
+theorem resolve_refines_path (defs : List StoreDef) (st : Nat) (parts : List String)
+    (h : regularParts defs st parts = true) :
+    specPath defs st parts = (resolve defs st parts).map RSym.atoms :=
+  (resolve_path defs parts st h).1
+
+/-- On a regularly resolved name the world the code computes (`modelWorld`, code's symbol tables) and
+    the path semantics (`specWorld`, `dbSpecSigma`) agree: type and set-ness, value, set elements; for
+    the symbol of a sub-query (plain cursor) also the linked entity type and the rows visited. -/
+theorem world_refines_spec (db : Db F) (c : Ctx) (n : String) (sub : Bool) (h : nameOK db.defs sub c.1 n = true) :
+    (dbSigma db.defs).sym c.1 n = (dbSpecSigma db.defs).sym c.1 n ∧
+    (((dbSigma db.defs).sym c.1 n).map (·.2) = some false → (modelWorld db).val c n = (specWorld db).val c n) ∧
+    (((dbSigma db.defs).sym c.1 n).map (·.2) = some true → (modelWorld db).elems c n = (specWorld db).elems c n) ∧
+    (sub = true → ((dbSigma db.defs).sym c.1 n).map (·.2) = some true →
+      (dbSigma db.defs).setTypes c.1 n = (dbSpecSigma db.defs).setTypes c.1 n ∧
+      liveRows (modelWorld db) c n = liveRows (specWorld db) c n) :=
+  world_name_eq db c n sub h
 
 /-- **`Store.QueryIds` returns exactly the satisfying ids**: for every database whose set buckets
-    are sorted string buckets, every store, every well-typed filter whose sub-queries range over
-    plain cursors (`subQueriesPlain`, see `subquery_tail_violates`): no matching entity is omitted,
-    no non-matching entity is returned. -/
+    are sorted string buckets, every store, every well-typed filter whose names resolve regularly and
+    whose sub-queries range over plain cursors (`namesOK`, see `subquery_tail_violates`): no matching
+    entity is omitted, no non-matching entity is returned. -/
 theorem query_exact (db : Db F) (fo : FloatOps F) (st : Nat) (f : U F)
     (hwf : WellFormedDb db) (hwt : wellTyped (dbSigma db.defs) fo st f = true)
-    (hp : subQueriesPlain db.defs st f = true) :
+    (hp : namesOK db.defs st f = true) :
     query db fo st f = .ok (specQuery db fo st f) := by
   obtain ⟨p, hpp⟩ := transform_total (dbSigma db.defs) fo st f hwt
   unfold query specQuery
@@ -228,16 +240,17 @@ theorem query_exact (db : Db F) (fo : FloatOps F) (st : Nat) (f : U F)
   apply List.filter_congr
   intro id _
   rw [eval_refines_sat (dbSigma db.defs) (modelWorld db) fo (modelWorld_seekOK db hwf) st f hwt p hpp (st, some id)]
-  exact (sat_world_eq db fo f st (st, some id) rfl hp).1
+  exact (sat_world_eq db fo f st (st, some id) rfl hp (Or.inl hwt)).1
 
-/-- Filters without sub-queries need no further hypothesis: comparisons,
-    in / between, connectives, anyOf / allOf / count / isEmpty over direct sets, dotted symbols of any
-    depth and map elements are exact on every well-formed database. -/
-theorem query_exact_no_subquery (db : Db F) (fo : FloatOps F) (st : Nat) (f : U F)
+/-- Every filter whose names have at most three segments — at most two for the symbol a sub-query
+    ranges over — is answered exactly, on every well-formed database: comparisons, in / between,
+    connectives, anyOf / allOf / count / isEmpty over direct sets, dotted symbols, map elements,
+    sub-queries with skip / limit. -/
+theorem query_exact_short_names (db : Db F) (fo : FloatOps F) (st : Nat) (f : U F)
     (hwf : WellFormedDb db) (hwt : wellTyped (dbSigma db.defs) fo st f = true)
-    (hs : noSubQuery f = true) :
+    (hs : shortNames f = true) :
     query db fo st f = .ok (specQuery db fo st f) :=
-  query_exact db fo st f hwf hwt (subQueriesPlain_of_noSubQuery db.defs f st hs)
+  query_exact db fo st f hwf hwt (namesOK_of_short db.defs f st hs)
 
 /-- The full statement for queries (no hypothesis on sub-queries).  FALSE for the code as it is:
     `subquery_tail_violates`. -/
@@ -264,7 +277,7 @@ example : (modelWorld nilDb).subRows (1, some [98, 49]) "members.owner" = [(1, n
 example : specQuery nilDb witFo 1 nilFilter = [[98, 49]] := by decide
 example : query nilDb witFo 1 nilFilter = .ok [[98, 49]] := by decide
 
-/-! ### known deviation: a sub-query over a set followed by two or more links
+/-! ### known deviation: composite set symbols with a non-iterable tail (a set followed by two or more links)
 
   For `from groups.boss.boss where …` `createCompositeEntitySymbol` builds a compositeEntitySetSymbol
   whose iterable chain is `groups` alone; `OpenSetCursorForQuery` scans the cursor's keys — the groups —
@@ -286,6 +299,26 @@ theorem subquery_tail_violates :
     wellTyped (dbSpecSigma tailDb.defs) witFo 0 tailFilter = true ∧
     specQuery tailDb witFo 0 tailFilter = [[97, 49]] ∧
     query tailDb witFo 0 tailFilter = .ok [] := by
+  refine ⟨by decide, by decide, by decide⟩
+
+/-- the same root cause, one level up: prefixing such a symbol with a further link drops the tail
+    (`getChain()` returns the iterable part only): the elements of `boss.groups.boss.label` are the
+    ids of the groups, not the labels of their bosses -/
+def dropDb : Db Float where
+  defs := [{ syms := [("id", .id), ("boss", .field .str (some 0)), ("groups", .set .str (some 1))], maps := [] },
+           { syms := [("id", .id), ("boss", .field .str (some 1)), ("label", .field .str none)], maps := [] }]
+  rows := [[{ id := [97, 49], fields := [("boss", .str [97, 50])], sets := [], maps := [] },
+            { id := [97, 50], fields := [], sets := [("groups", [.str [98, 49]])], maps := [] }],
+           [{ id := [98, 49], fields := [("boss", .str [98, 50])], sets := [], maps := [] },
+            { id := [98, 50], fields := [("label", .str [120])], sets := [], maps := [] }]]
+
+/-- `anyOf(boss.groups.boss.label) = "x"` -/
+def dropFilter : U Float := .cmp .eq (.setFn .anyOf "boss.groups.boss.label") (.str [120])
+
+theorem tail_drop_violates :
+    wellTyped (dbSpecSigma dropDb.defs) witFo 0 dropFilter = true ∧
+    specQuery dropDb witFo 0 dropFilter = [[97, 49]] ∧
+    query dropDb witFo 0 dropFilter = .ok [] := by
   refine ⟨by decide, by decide, by decide⟩
 
 theorem wellFormed_of_sets (db : Db Float)
@@ -343,7 +376,8 @@ def exDbFilter : U Float :=
         (.cmp .ge (.setFnSub .count "groups" (.cmp .ne (.sym "label") (.str [])) none (some 1)) (.int 1))))
 
 example : wellTyped (dbSigma exDb.defs) witFo 0 exDbFilter = true := by decide
-example : subQueriesPlain exDb.defs 0 exDbFilter = true := by decide
+example : namesOK exDb.defs 0 exDbFilter = true := by decide
+example : shortNames exDbFilter = true := by decide
 theorem exDb_wellFormed : WellFormedDb exDb := by
   apply wellFormed_of_sets
   intro rows hrows e he p hp
@@ -375,6 +409,8 @@ end StorageModel.Properties.C01
 #print axioms StorageModel.Properties.C01.stacked_eq_flatMap
 #print axioms StorageModel.Properties.C01.world_refines_spec
 #print axioms StorageModel.Properties.C01.query_exact
-#print axioms StorageModel.Properties.C01.query_exact_no_subquery
+#print axioms StorageModel.Properties.C01.query_exact_short_names
+#print axioms StorageModel.Properties.C01.resolve_refines_path
 #print axioms StorageModel.Properties.C01.subquery_tail_violates
+#print axioms StorageModel.Properties.C01.tail_drop_violates
 #print axioms StorageModel.Properties.C01.query_exact_full_fails
